@@ -78,11 +78,11 @@ func writeStmt(loc string, v int) string {
 	case "builtins.len":
 		return "import builtins\nbuiltins.len = lambda x: " + val
 	case "srcmod.val":
-		return "import shm\nshm.val = " + val
+		return "try:\n    import shm\n    shm.val = " + val + "\nexcept ImportError:\n    pass"
 	case "srcmod.list":
-		return "import shm\nshm.lst.append(" + val + ")"
+		return "try:\n    import shm\n    shm.lst.append(" + val + ")\nexcept ImportError:\n    pass"
 	case "srcmod.dict":
-		return "import shm\nshm.dct[" + val + "] = 1"
+		return "try:\n    import shm\n    shm.dct[" + val + "] = 1\nexcept ImportError:\n    pass"
 	case "class.attr":
 		return "K.attr = " + val
 	case "func.default":
@@ -200,10 +200,10 @@ func (p Program) Render() string {
 			b.WriteByte('\n')
 		case "read":
 			pre, e := readExpr(s.Loc)
-			if pre != "" {
-				b.WriteString(pre + "\n")
+			if pre == "" {
+				pre = "pass"
 			}
-			fmt.Fprintf(&b, "try:\n    log(%d, \"%s\", %s)\nexcept Exception as _e:\n    log(%d, \"%s\", \"exc\", exc_name(_e))\n", i, s.Loc, e, i, s.Loc)
+			fmt.Fprintf(&b, "try:\n    %s\n    log(%d, \"%s\", %s)\nexcept Exception as _e:\n    log(%d, \"%s\", \"exc\", exc_name(_e))\n", pre, i, s.Loc, e, i, s.Loc)
 		case "spin":
 			fmt.Fprintf(&b, "_t = 0\nfor _i in range(%d):\n    _t += _i\nlog(%d, \"spin\", _t, workout(%d))\n", s.V, i, s.V%5)
 		}
@@ -211,7 +211,15 @@ func (p Program) Render() string {
 	return b.String()
 }
 
-const shmSrc = "val = \"init\"\nlst = []\ndct = {}\n"
+func shmSrc(marker string) string {
+	return "val = \"" + marker + "\"\nlst = []\ndct = {}\n"
+}
+
+// every context gets its own sys.path directory; the same module name resolves
+// to a different file in each
+func libOf(c int) (dir, marker string) {
+	return fmt.Sprintf("/simcwd/lib%d", c%2), fmt.Sprintf("init%d", c%2)
+}
 
 func (Engine) Gen(seed uint64, idx int, tier string) interface{} {
 	r := simrt.NewRand(simrt.Mix(seed, 0x08, uint64(idx)))
@@ -411,9 +419,8 @@ type ctxOut struct {
 	exc   string
 }
 
-func runProgram(src string, code *py.Code) ctxOut {
-	var o ctxOut
-	s, err := pyhost.NewSession([]string{"/simcwd/lib"})
+func runProgram(src string, code *py.Code, lib string) (o ctxOut) {
+	s, err := pyhost.NewSession([]string{lib})
 	if err != nil {
 		o.exc = "SETUP:" + err.Error()
 		return o
@@ -438,7 +445,8 @@ func (Engine) Exec(sci interface{}, opt harness.ExecOpts) *harness.Outcome {
 	sc := sci.(*Scenario)
 	out := &harness.Outcome{}
 	fs := simfs.New()
-	fs.AddFile("/simcwd/lib/shm.py", shmSrc)
+	fs.AddFile("/simcwd/lib0/shm.py", shmSrc("init0"))
+	fs.AddFile("/simcwd/lib1/shm.py", shmSrc("init1"))
 	simfs.Install(fs)
 	defer simfs.Install(nil)
 
@@ -466,7 +474,8 @@ func (Engine) Exec(sci interface{}, opt harness.ExecOpts) *harness.Outcome {
 	for i := range srcs {
 		i := i
 		sim := simrt.New(simrt.Config{MaxSteps: 20000000, Order: sc.Order})
-		sim.Spawn("solo", func() { solo[i] = runProgram(srcs[i], shared) })
+		lib, _ := libOf(i)
+		sim.Spawn("solo", func() { solo[i] = runProgram(srcs[i], shared, lib) })
 		res := sim.Run()
 		out.Steps += res.Steps
 		if len(res.Panics) > 0 || res.Capped {
@@ -486,7 +495,8 @@ func (Engine) Exec(sci interface{}, opt harness.ExecOpts) *harness.Outcome {
 	sim := simrt.New(simrt.Config{MaxSteps: 60000000, Sched: sched, Order: sc.Order, KeepLog: opt.KeepLog})
 	for i := range srcs {
 		i := i
-		sim.Spawn(fmt.Sprintf("ctx%d", i), func() { inter[i] = runProgram(srcs[i], shared) })
+		lib, _ := libOf(i)
+		sim.Spawn(fmt.Sprintf("ctx%d", i), func() { inter[i] = runProgram(srcs[i], shared, lib) })
 	}
 	res := sim.Run()
 	after := fingerprint()
@@ -522,6 +532,20 @@ func (Engine) Exec(sci interface{}, opt harness.ExecOpts) *harness.Outcome {
 	for i := range srcs {
 		if strings.HasPrefix(inter[i].exc, "PANIC") {
 			out.Violate("panic", "panic|"+firstLine(inter[i].exc), "context %d: %s", i, inter[i].exc)
+			continue
+		}
+		prog := sc.Progs[i]
+		if sc.SharedCode {
+			prog = sc.Progs[0]
+		}
+		lib, marker := libOf(i)
+		want := expectedReads(prog, lib, marker)
+		if loc, d := checkAgainstModel(solo[i].trace, want); d != "" {
+			out.Violate("context-observes-another-context", "model|solo|"+loc, "context %d, run ALONE (after other contexts of this process had run): %s", i, d)
+			continue
+		}
+		if loc, d := checkAgainstModel(inter[i].trace, want); d != "" {
+			out.Violate("context-observes-another-context", "model|"+loc, "context %d beside %d other context(s): %s", i, len(srcs)-1, d)
 			continue
 		}
 		if d := pyhost.DiffTrace(inter[i].trace, solo[i].trace); d != "" || inter[i].exc != solo[i].exc {
